@@ -1399,7 +1399,8 @@ def shrink_case(ctx, case, sig):
 def run(ctx):
     res = Result()
     res.rule = ('generated scenarios: 1..4 modules on one poll thread (with/without shared io), poll intervals 0..10 s, slow intervals '
-                '0.125..15 s, scripted durations 0..2 s and outcomes of doPoll/read_*/initialReads, run-time interval changes / '
+                '0.125..15 s, scripted durations 0..2 s and outcomes of doPoll/read_*/initialReads and of the write functions of start values '
+                '(parameters of every kind of declaration, plain and common write handlers), run-time interval changes / '
                 'fast poll / triggers / reconnect; non-trivial = at least two enabled modules or a failing function, at least 20 '
                 'main polls, at least one slow poll, at least one wait')
     big = ctx.tier == 'thorough' or ctx.escalated
